@@ -8,7 +8,7 @@
    implementation by the msg / msgparts correspondence and the values oracle. *)
 From Coq Require Import String.
 From Coq Require Import NArith ZArith List Bool.
-From Cose Require Import Lib.Base Lib.Cbor Lib.CborProofs Model.GoVal Model.Wire Model.MsgLogic Model.Msg Model.MsgProofs Model.MsgRoundTrip.
+From Cose Require Import Lib.Base Lib.Cbor Lib.CborProofs Model.GoVal Model.CborGo Model.Wire Model.MsgLogic Model.Msg Model.MsgProofs Model.MsgRoundTrip Model.ValueRoundTrip Model.MsgRoundTripFull.
 Import ListNotations.
 
 (* ---- the authenticated byte strings are re-emitted as received *)
@@ -97,3 +97,29 @@ Print Assumptions C09_struct_members_roundtrip.
 Theorem C09_nil_vs_empty : forall b, encodable (ob b) = true -> fld_bytes (enc_bytes b) = Ok b.
 Proof. intros b E. rewrite enc_bytes_ob. exact (fld_bytes_ob b E). Qed.
 Print Assumptions C09_nil_vs_empty.
+
+(* ---- value round trip of Go values through CBOR: what was written decodes to the same value in the decoder's normal
+   form (integers as uint64 / int64, maps in the deterministic order), at any nesting depth within the limits *)
+Theorem C09_value_roundtrip : forall v it, item_of v = Some it -> hv v = true -> kd it = true -> parse true (canon it) = Ok (normv v).
+Proof. exact value_roundtrip. Qed.
+Print Assumptions C09_value_roundtrip.
+
+(* header / key / claim maps: CoseMap.MarshalCBOR then CoseMap.UnmarshalCBOR returns the same labels with values in normal form *)
+Theorem C09_cosemap_roundtrip : forall m bs,
+  forallb (fun e => checked (fst e)) m = true -> hv (VMap m) = true ->
+  enc_cosemap m = Some bs ->
+  (forall it, item_of (VMap m) = Some it -> encodable it = true) ->
+  cosemap_of_bytes bs = Ok (read_back m).
+Proof. exact cosemap_roundtrip. Qed.
+Print Assumptions C09_cosemap_roundtrip.
+
+Theorem C09_headers_roundtrip : forall m pb, good_map m -> headers_bytes m = Some pb -> headers_from_bytes (Some pb) = Ok (read_back m).
+Proof. exact headers_roundtrip. Qed.
+Print Assumptions C09_headers_roundtrip.
+
+(* ... and every typed accessor reads from it what it read from the original *)
+Theorem C09_read_back_accessors : forall m l, NoDup (map fst m) -> forallb (fun e => ints_in_kind (snd e)) m = true ->
+  get_int (read_back m) l = get_int m l /\ get_bytes (read_back m) l = get_bytes m l
+  /\ get_string (read_back m) l = get_string m l /\ get_bool (read_back m) l = get_bool m l /\ has (read_back m) l = has m l.
+Proof. exact read_back_accessors. Qed.
+Print Assumptions C09_read_back_accessors.
